@@ -136,6 +136,8 @@ def body_fields(t: int, s: int, h: int, p: int, mode: int, root: bool, t2: int, 
     except Exception as e:
         raise hx.Violation("C09:reader-raises:%s" % type(e).__name__, "lines=%r: %r" % (lines, e))
     hx.reach()
+    got2, _ = _run([l + "\r\n" for l in lines], mode, root, strict_proto=True)
+    hx.require(got2 == got, "C09:second-listing-differs-from-first", lambda: "first=%r second=%r" % (got, got2))
     want = [ref.parse_line(l, base) for l in lines]
     hx.require(len(got) == len(want), "C09:not-one-entry-per-line", lambda: "lines=%r entries=%r" % (lines, got))
     for g, w, l in zip(got, want, lines):
